@@ -144,7 +144,7 @@ func getValues(queryFile string, extraAsserts []string, terms []string, dir, nam
 	os.WriteFile(p, []byte(sb.String()), 0o644)
 	ctx, cancel := context.WithTimeout(context.Background(), 30*time.Second)
 	defer cancel()
-	cmd := exec.CommandContext(ctx, "z3-new", "-T:25", p)
+	cmd := exec.CommandContext(ctx, "z3-new", "-T:8", p)
 	var out bytes.Buffer
 	cmd.Stdout = &out
 	cmd.Stderr = &out
@@ -217,13 +217,21 @@ func checkPinnedImpl(queryFile string, extra []string, dir, name string, dropQua
 	sb.WriteString("(check-sat)\n")
 	p := filepath.Join(dir, name+".gv.smt2")
 	os.WriteFile(p, []byte(sb.String()), 0o644)
-	r := runOneNamed("z3-new", p, 20)
+	r := runOneNamed("z3-new", p, 6)
 	return r.Status
 }
 
 // weakenedModel writes the query without quantified assumptions (goal kept)
 // and reports whether z3 finds a model of it.
 func weakenedModel(queryFile string) (string, bool) {
+	// first keep the definitional axioms (those with :pattern), then drop them too
+	if p, ok := weakenedModelLevel(queryFile, false); ok {
+		return p, true
+	}
+	return weakenedModelLevel(queryFile, true)
+}
+
+func weakenedModelLevel(queryFile string, dropAxioms bool) (string, bool) {
 	b, err := os.ReadFile(queryFile)
 	if err != nil {
 		return "", false
@@ -244,7 +252,7 @@ func weakenedModel(queryFile string) (string, bool) {
 	dropped := 0
 	var sb strings.Builder
 	for k, ln := range lines {
-		if k != goal && strings.HasPrefix(ln, "(assert ") && (strings.Contains(ln, "(forall ") || strings.Contains(ln, "(exists ")) {
+		if k != goal && strings.HasPrefix(ln, "(assert ") && (strings.Contains(ln, "(forall ") || strings.Contains(ln, "(exists ")) && (dropAxioms || !strings.Contains(ln, ":pattern")) {
 			dropped++
 			continue
 		}
@@ -269,7 +277,11 @@ func weakenedModel(queryFile string) (string, bool) {
 		return "", false
 	}
 	sb.WriteString("(check-sat)\n(get-model)\n")
-	p := strings.TrimSuffix(queryFile, ".smt2") + ".weak.smt2"
+	suffix := ".weak.smt2"
+	if dropAxioms {
+		suffix = ".weak2.smt2"
+	}
+	p := strings.TrimSuffix(queryFile, ".smt2") + suffix
 	if err := os.WriteFile(p, []byte(sb.String()), 0o644); err != nil {
 		return "", false
 	}
@@ -383,6 +395,12 @@ func (b *rb) collect(v Val, t types.Type, depth int) {
 				if ct != "" {
 					b.collect(fromTerm(el, ct), el, depth+1)
 				}
+			}
+		}
+		if kindOf(el) == kStruct {
+			for i := 0; i < 12; i++ {
+				p := Val{K: kPtr, T: types.NewPointer(el), Ref: v.Ref, Idx: add(v.Off, num(int64(i))), Root: el}
+				b.collectPointee(p, el, depth+1)
 			}
 		}
 	case kPtr:
@@ -635,6 +653,12 @@ func (b *rb) expr(v Val, t types.Type, depth int) string {
 				}
 			}
 		}
+		if kindOf(el) == kStruct {
+			for i := int64(0); i < cp && i < 12; i++ {
+				p := Val{K: kPtr, T: types.NewPointer(el), Ref: v.Ref, Idx: add(v.Off, num(i)), Root: el}
+				b.stmt("%s[%d] = %s", bk, off+i, b.pointeeExpr(p, el, depth+1))
+			}
+		}
 		return fmt.Sprintf("%s(%s[%d:%d:%d])", b.qual(t), bk, off, off+ln, off+cp)
 	case kStruct:
 		st := mustStruct(t)
@@ -779,7 +803,8 @@ func tryReplay(eng *Engine, o *Obligation, dir, name string) map[string]interfac
 	}
 	// prefer small models: progressively weaker size limits
 	ok := false
-	for _, lim := range []int64{16, replayElems, 4096, 1 << 20, 0} {
+	var usedSmall []string
+	for _, lim := range []int64{4, 16, replayElems, 4096, 1 << 20, 0} {
 		var small []string
 		if lim > 0 {
 			for _, t := range b.terms {
@@ -794,11 +819,50 @@ func tryReplay(eng *Engine, o *Obligation, dir, name string) map[string]interfac
 		}
 		b.vals, ok = getValues(o.queryFile, append(small, o.pins...), b.terms, dir, name+".1")
 		if ok {
+			usedSmall = small
 			break
 		}
 	}
 	if !ok {
 		return map[string]interface{}{"confirmed": false, "reason": "model values could not be read back"}
+	}
+	// Strings are abstract values in the model: try to make strings with
+	// equal contents equal values (so that content-based Go strings agree
+	// with the model's equalities).
+	for round := 0; round < 3; round++ {
+		var merge []string
+		byContent := map[string]string{}
+		for _, t := range b.strs {
+			v := b.vals[t]
+			if v == nil {
+				continue
+			}
+			n, okn := b.intv(sx("slen", t))
+			if !okn || n > 24 {
+				continue
+			}
+			key := fmt.Sprint(n)
+			for j := int64(0); j < n; j++ {
+				cv, _ := b.intv(sx("sat", t, num(j)))
+				key += fmt.Sprintf(",%d", cv)
+			}
+			if prev, seen := byContent[key]; seen {
+				if b.vals[prev] != nil && b.vals[prev].String() != v.String() {
+					merge = append(merge, eq(prev, t))
+				}
+			} else {
+				byContent[key] = t
+			}
+		}
+		if len(merge) == 0 {
+			break
+		}
+		usedSmall = append(usedSmall, merge...)
+		nv, ok2 := getValues(o.queryFile, append(append([]string{}, usedSmall...), o.pins...), b.terms, dir, name+".1s")
+		if !ok2 {
+			break
+		}
+		b.vals = nv
 	}
 	b.resolveStrings()
 	for _, p := range c.replayParams {
